@@ -123,6 +123,8 @@ def run(ctx):
             rq1, c1, rq2, c2, case = real_rule_var(r)
         except Exception as e:
             ctx.count('rule_var:harness-error:' + type(e).__name__); continue
+        for pb in case.get('problems', []):
+            ctx.hit('affine-adaptation-not-as-declared', pb, {k: v for k, v in case.items() if k != 'problems'})
         reqs.append(rq1); codes.append(c1); cases.append(case); comps.append('dro.Model.rule_var const columns')
         if rq2 is not None:
             reqs.append(rq2); codes.append(c2); cases.append(case); comps.append('dro.Model.rule_var coefficient columns')
@@ -133,6 +135,8 @@ def run(ctx):
     # ---- D. ro decision rule adapt sequences ------------------------------------------------
     for _ in range(ctx.n(150, 3000)):
         rq, code, case = real_ldr_seq(r)
+        if case.get('structure_problem'):
+            ctx.hit('ldr-structure-not-as-declared', case['structure_problem'], {k: v for k, v in case.items() if k != 'structure_problem'})
         reqs.append(rq); codes.append(code); cases.append(case); comps.append('DecRule.adapt')
         ctx.count('ldr:' + ','.join(sorted(set(code['results']))) if code['results'] else 'ldr:none')
     outs = C.lean_run(reqs)
@@ -187,29 +191,53 @@ def real_rule_var(r):
     decs = []
     nd = int(r.integers(1, 4))
     order = []
+    problems = []
     for k in range(nd):
         size = int(r.integers(1, 4))
-        x = m.dvar(size)
+        vt = 'C' if r.random() < 0.7 else ''.join(str(c) for c in r.choice(['C', 'C', 'B', 'I'], size))
+        x = m.dvar(size, vtype=vt) if len(vt) == 1 or size > 0 else m.dvar(size)
+        letters = vt * size if len(vt) == 1 else vt
         part = rand_partition(r, S)
         # declare all but one event (the first stays the remainder) in random order
         for e in part[1:]:
             x.adapt(e if len(e) > 1 or r.random() < 0.5 else e[0])
         mask = np.zeros((size, nz), int)
         if r.random() < 0.6:
+            plan = []
             for _ in range(int(r.integers(1, 3))):
                 di = sorted(set(int(v) for v in r.choice(size, int(r.integers(1, size + 1)), replace=False)))
                 ri = sorted(set(int(v) for v in r.choice(nz, int(r.integers(1, nz + 1)), replace=False)))
-                if mask[np.ix_(di, ri)].any():
+                if mask[np.ix_(di, ri)].any() or any(set(di) & set(p_[0]) and set(ri) & set(p_[1]) for p_ in plan):
                     continue
-                if len(di) == size and r.random() < 0.5:
-                    x.adapt(z[ri])
-                else:
-                    x[di].adapt(z[ri])
-                mask[np.ix_(di, ri)] = 1
+                plan.append((di, ri))
+            early = bool(r.random() < 0.5)        # slice objects created BEFORE any adapt() call on the array
+            objs = [(x if (len(di) == size and r.random() < 0.5) else x[di]) for di, ri in plan] if early else None
+            for i_, (di, ri) in enumerate(plan):
+                target = objs[i_] if early else (x if (len(di) == size and r.random() < 0.5) else x[di])
+                has_int = any(letters[i] in 'BI' for i in di)
+                try:
+                    target.adapt(z[ri])
+                    if has_int:
+                        problems.append({"what": "integer entry made affinely adaptive", "vtype": vt, "entries": di})
+                    mask[np.ix_(di, ri)] = 1
+                except ValueError:
+                    if not has_int:
+                        raise
         decs.append({"size": size, "events": [list(map(int, e)) for e in x.event_adapt], "mask": mask.tolist()})
         order.append(x)
+    late = int(r.integers(1, 3)) if r.random() < 0.25 else 0
+    if late:
+        m.rvar(late)                                  # a random variable declared after the adapt() calls
+    nz_decl = nz
+    nz = nz + late
     with C.quiet():
         lst = m.rule_var()
+    # the dependencies the code recorded must be exactly the declared ones (padded for late random variables)
+    for x, dsc in zip(order, decs):
+        got = np.zeros((dsc['size'], nz), int) if x.rand_adapt is None else np.asarray(x.rand_adapt)[:, :nz]
+        want = np.hstack([np.array(dsc['mask']).reshape(dsc['size'], nz_decl), np.zeros((dsc['size'], late), int)])
+        if got.shape != want.shape or np.any(got != want):
+            problems.append({"what": "recorded dependencies differ from the declared ones", "declared": want.tolist(), "recorded": got.tolist()})
     vc = m.ro_model.rc_model.vars[1]            # var_const block
     # the model has one extra leading decision: the objective epigraph variable dec_vars[0] (size 1, static)
     alld = [{"size": int(dv.size), "events": [list(map(int, e)) for e in dv.event_adapt],
@@ -235,7 +263,7 @@ def real_rule_var(r):
             first_lin = int(m.ro_model.rc_model.vars[2].first)
             lin_cols.append([int(c) - first_lin for c in cc])
             nzr = [int(v) for v in rr]
-    case = {"S": S, "nz": nz, "decs": alld}
+    case = {"S": S, "nz": nz, "decs": alld, "late_rvars": late, "problems": problems}
     rq1 = {"op": "rule_cols", "S": S, "decs": [{"size": d["size"], "events": d["events"]} for d in alld]}
     c1 = {"cols": cols, "ro_first": [int(dv.ro_first) for dv in m.dec_vars]}
     if anyaff and lin_cols:
@@ -291,8 +319,30 @@ def real_ldr_seq(r):
     else:
         calls_model = calls; results_cmp = results; extra = None
     mask = np.zeros((size, nz), int) if y.depend is None else np.asarray(y.depend)
+    # the compiled rule must carry exactly the declared (entry, component) pairs - also when random variables are declared
+    # between adapt() and the first use of the rule
+    struct = None
+    if not used and not any(str(v).startswith('use-raises') for v in results) and (not results or results[-1] == 'ok'):
+        late = int(r.integers(1, 3)) if r.random() < 0.35 else 0
+        if late:
+            m.rvar(late)
+        try:
+            a = y.to_affine()
+            nr_ = int(m.sup_model.vars[-1].last)       # (auxiliary columns of an earlier norm set may sit between the random variables)
+            if hasattr(a, 'raffine'):
+                rows_ = sorted(set(int(v) for v in np.nonzero(C.dense(a.raffine.linear))[0]))
+            else:
+                rows_ = []
+            want = sorted(int(i * nr_ + j) for i in range(size) for j in range(nz) if mask[i, j])
+            if rows_ != want:
+                struct = {"what": "compiled rule depends on other (entry, component) pairs than declared", "declared_rows": want,
+                          "compiled_rows": rows_, "late_rvars": late}
+        except Exception as e:
+            struct = {"what": "using the rule raised", "error": type(e).__name__, "late_rvars": late}
+        mask = mask[:, :nz]
     code = {"results": results_cmp, "mask": mask.tolist()}
-    case = {"size": size, "nz": nz, "calls": calls, "used_before_last": used, "last_error": extra, "norm_set_formulated_first": foreign}
+    case = {"size": size, "nz": nz, "calls": calls, "used_before_last": used, "last_error": extra, "norm_set_formulated_first": foreign,
+            "structure_problem": struct}
     if after_use_ok:
         code["results"] = results_cmp + ['accepted-after-use']      # never equal to the model's reply
     rq = {"op": "aff_seq", "size": size, "nrand": nz, "is_int": False, "calls": [{"dec": c["dec"], "rand": c["rand"]} for c in calls_model if "dec" in c]}
